@@ -54,7 +54,7 @@ def cases(ctx):
 
 
 def bases_for(rm):
-    bases = set(M.defined_literals(rm)) | set(EXTRA_BASES)
+    bases = set(M.defined_literals(rm)) | set(EXTRA_BASES) | {k for k in rm.normalizations if not k.endswith('-of')}
     out = []
     for b in sorted(bases):
         if rm.defines(b):
@@ -111,7 +111,7 @@ def oracle(ctx, kind, p):
             name = f'rand{1000 + p["i"] % 97}'
             m, rm = M.from_spec(M.rand_spec(1000 + p['i'] % 97), name)
             ctx.count('short_lived_models')
-        node = T.rand_tree(rng, rm)
+        node = T.rand_tree(rng, rm, extra_roles=[k for k in rm.normalizations if not k.endswith('-of')])
 
         def over(nd):
             v, br = nd
@@ -233,6 +233,16 @@ def check_role(ctx, name, m, rm, b, k, r, rin, chain):
             ok, it = ctx.call(m.invert, ('s', r, tgt), clause='invert')
             if ok and (it != (tgt, i1, 's') or type(it[0]) is not type(tgt)):
                 ctx.fail('invert:swap(non-str target)', detail=dict(det, target=repr(tgt), got=repr(it)))
+        # whatever the target is (a number, a quoted string, nothing): the triple algebra does not
+        # look at it
+        for tgt in (5, 2.5, '"b"', None, '-'):
+            tr2 = ('s', r, tgt)
+            ok, dt2 = ctx.call(m.deinvert, tr2, clause='deinvert')
+            if ok:
+                want2 = tr2 if (rm.noop or not rm.inverted(r)) else (tgt, i1, 's')
+                if dt2 != want2 or type(dt2[0]) is not type(want2[0]):
+                    ctx.fail('deinvert:non-variable target', mech=type(tgt).__name__,
+                             detail=dict(det, triple=repr(tr2), got=repr(dt2), want=repr(want2)))
         ok, dt = ctx.call(m.deinvert, tr, clause='deinvert')
         if ok:
             if rm.noop:
